@@ -98,6 +98,16 @@ pub(crate) struct VersionSet {
     This field corresponds to the `VersionSet::descriptor_log_` field.
     */
     maybe_manifest_file: Option<Arc<Mutex<LogWriter>>>,
+
+    /**
+    The error of a failed append to the manifest file that is currently in use.
+
+    A failed append can leave part of a record in the file. Anything appended after that would be
+    glued to the partial record and could not be read back, so once this is set no further
+    changes are logged until the database is re-opened (recovery does not re-use a manifest that
+    ends in a partial record).
+    */
+    maybe_manifest_append_error: Option<WriteError>,
 }
 
 /// Public methods
@@ -132,6 +142,7 @@ impl VersionSet {
             current_version,
             compaction_pointers: Default::default(),
             maybe_manifest_file: None,
+            maybe_manifest_append_error: None,
         }
     }
 
@@ -479,6 +490,19 @@ impl VersionSet {
         db_fields_guard: &mut MutexGuard<GuardedDbFields>,
         change_manifest: &mut VersionChangeManifest,
     ) -> WriteResult<()> {
+        if let Some(previous_error) = db_fields_guard
+            .version_set
+            .maybe_manifest_append_error
+            .as_ref()
+        {
+            log::error!(
+                "Refusing to log a version change because an earlier append to the manifest file \
+                failed. Original error: {}.",
+                previous_error
+            );
+            return Err(previous_error.clone());
+        }
+
         let (new_version, created_new_manifest_file) =
             VersionSet::get_new_version_from_current(db_fields_guard, change_manifest)?;
 
@@ -525,6 +549,9 @@ impl VersionSet {
                             ManifestWriteErrorKind::ManifestErrorCleanup(remove_file_error.into()),
                         ));
                     }
+                } else {
+                    // The manifest in use may now end in a partial record
+                    version_set.maybe_manifest_append_error = Some(error.clone());
                 }
 
                 return Err(error);
